@@ -136,7 +136,7 @@ def check_clamps(res, facts, tier='quick'):
         res.ob('R-CLAMP', 'u8::from(Note)', o.status == 'returned' and isinstance(o.ret, Num) and o.ret.term == v.fields[0].term, 'returns %r' % (o.ret,), where_of(facts, rev))
     # the envelope stores exactly what the conversion produced (so x and its bound configure identically)
     from . import dds
-    dds.check_set_input(res, facts)
+    dds.check_set_input(res, facts, only_stored=True)
     # the listened channel is only ever compared, never re-derived
     if tier == 'thorough':
         from .. import witness
